@@ -34,6 +34,7 @@ type world struct {
 	gf       *gated.Filter
 	reentry  atomic.Int64 // re-entrant Sends executed from Close/Reopen
 	reProc   atomic.Int64
+	sRF      *nodes.N // the sink of a pipeline of its own whose Reopen can be made to fail
 	compSeen atomic.Int64
 	pending  map[string]bool
 }
@@ -122,6 +123,10 @@ func build(c cfg) *world {
 	_ = b.RegisterNode("x", x)
 	_ = b.RegisterNode("mA", mA)
 	_ = b.RegisterNode("sA", sA)
+	wd.sRF = mk("sRF", eventlogger.NodeTypeSink)
+	_ = b.RegisterNode("mRF", mk("mRF", eventlogger.NodeTypeFormatter))
+	_ = b.RegisterNode("sRF", wd.sRF)
+	_ = b.RegisterPipeline(eventlogger.Pipeline{PipelineID: "prf", EventType: "RF", NodeIDs: []eventlogger.NodeID{"mRF", "sRF"}})
 	_ = b.RegisterPipeline(eventlogger.Pipeline{PipelineID: "pa", EventType: "A", NodeIDs: []eventlogger.NodeID{"x", "mA", "sA"}})
 	for i := 0; i < c.TargetPipes; i++ {
 		m, s := fmt.Sprintf("mB%d", i), fmt.Sprintf("sB%d", i)
@@ -164,7 +169,7 @@ func exec(f func()) bool {
 	}
 }
 
-var opNames = []string{"rpanW", "rmpipeW+rmnodeEW", "sendG", "sendG", "sendG", "flushG", "tick", "tick", "sendA", "sendA", "reopen", "reopen", "rpanG", "rpanA", "rmpipeG+rmnode", "rmpipeA+rmnode", "regnode", "regpipeA", "thr", "isany", "rmpipeB", "sendExpired", "stoptime", "rmnodePadded", "rmnodePadded", "rmpipePadded", "rmpipeG"}
+var opNames = []string{"rpanW", "rmpipeW+rmnodeEW", "sendG", "sendG", "sendG", "flushG", "tick", "tick", "sendA", "sendA", "reopen", "reopen", "rpanG", "rpanA", "rmpipeG+rmnode", "rmpipeA+rmnode", "regnode", "regpipeA", "thr", "isany", "rmpipeB", "sendExpired", "stoptime", "rmnodePadded", "rmnodePadded", "rmpipePadded", "rmpipeG", "replaceGF", "replaceGF", "regpipeG", "reopenFailsOnce"}
 
 func TestC12Terminates(t *testing.T) {
 	sec := stats.Sec("terminates", rule)
@@ -283,6 +288,25 @@ func TestC12Terminates(t *testing.T) {
 				// only the pipeline goes: the gated filter stays registered, unreferenced, possibly with gated groups
 				f = func() { _ = b.RemovePipeline("G", "pg") }
 				gfRegistered = false
+			case "replaceGF":
+				// the gated filter's id is registered again with a new filter while the pipeline still holds the old one
+				// (which may have gated groups and whose Close sends through this very Broker)
+				f = func() {
+					_ = b.RegisterNode("gf", &gated.Filter{Broker: b, Expiration: time.Second, NowFunc: func() time.Time { return time.Unix(0, wd.now.Load()) }})
+				}
+			case "regpipeG":
+				f = func() {
+					_ = b.RegisterPipeline(eventlogger.Pipeline{PipelineID: "pg", EventType: "G", NodeIDs: []eventlogger.NodeID{"gf", "mG", "sG"}})
+				}
+				gfRegistered = true
+			case "reopenFailsOnce":
+				// one node's Reopen fails for exactly one Broker.Reopen; later Reopens must still return
+				f = func() {
+					wd.sRF.ReopenErr = fmt.Errorf("reopen of sRF failed")
+					_ = b.Reopen(ctx)
+					wd.sRF.ReopenErr = nil
+					_ = b.Reopen(ctx)
+				}
 			case "sendExpired":
 				// contexts that are done in different ways before the call: deadline in the past, deadline now, tiny timeout, cancelled
 				kind := i % 4
